@@ -18,7 +18,7 @@ ASSUMPTIONS = ['lineage expected values come from harness dispatch records (who 
 def families(tier):
     deep = tier == 'thorough'
     out = []
-    cfg = dict(bound=3 if deep else 2, cap=40000 if deep else 2000, window=0.6, max_targets=2)
+    cfg = dict(bound=4 if deep else 2, cap=40000 if deep else 2000, window=0.6, max_targets=2)
 
     def add(fam, sid, buses, hs, main, forwards=(), actors=(), fwd_first=False, **params):
         names = list(buses)
